@@ -21,7 +21,7 @@
 From Coq Require Import String.
 From Coq Require Import List ZArith Strings.Byte Bool Permutation Sorting.Sorted.
 From Verif Require Import Base.Wire Json.Utf8 Json.Json Json.Number Json.Lexer Json.C14n
-  Json.JsonProofs Json.LexProofs Json.C14nProofs.
+  Json.JsonProofs Json.LexProofs Json.C14nProofs Json.PanicProofs.
 Import ListNotations.
 Open Scope Z_scope.
 
@@ -188,8 +188,11 @@ Example canon_on_the_witnesses :
   canon ([x7b; x22; xff; x22; x3a] ++ bs "null}") = Err EUtf8.
 Proof. vm_compute. repeat split. Qed.
 
-(* PARTIAL, not proved: forall t, canon t <> Panic (needs the bracket-matching invariant of the
-   token machine); the check searches for panics on every malformed input instead. *)
+(* no input makes the fixed code panic: the token machine never lets handleNextToken return nil
+   where a value is required, so no nil Canonicalable is stored or marshalled *)
+Theorem canon_never_panics t : canon t <> Panic.
+Proof. exact (canon_no_panic t). Qed.
+Print Assumptions canon_never_panics.
 
 (* ---------------------------------------------------------------------------------------------- *)
 (* non-vacuity of the hypotheses                                                                    *)
